@@ -243,6 +243,11 @@ class P(Prop):
         (M, "TV.C20.projOnTrack3_planimetric", "__projOnTrack on 3D positions is planimetric: (ENUCoords(px, py, 0), d, i) with (d, px, py, i) = proj_polyligne on the (X, Y) of track and query; no altitude is read"),
         (M, "TV.C20.mapOnTrack3_coord", "mapOnTrack(coord, track): one (ENUCoords(px, py, 0), d, i), the planimetric projection of the coordinate"),
         (M, "TV.C20.mapOnTrack3_track", "mapOnTrack(track, track): one row per query in order, row j = (ENUCoords(px, py, 0), d, i) the planimetric projection of query j"),
+        (M, "TV.C20.mapOnTrackT_rows", "mapOnTrack(track, track) on track OBJECTS (feature tables, time stamps): the output has exactly the features dist, edge, default time stamps, one observation per query; its positions / dist / edge columns are the point, distance, segment index of THIS projection of query j — whatever features (dist / edge included) the track of queries carried"),
+        (M, "TV.C20.mapOnTrackT_ignores_state", "the result of mapOnTrack(track, track) depends on the positions of the two tracks only, not on their analytical features / time stamps"),
+        (M, "TV.C20.mapOnTrackT_empty", "a track of queries without observation: AnalyticalFeatureError (createAnalyticalFeature on the empty output)"),
+        (M, "TV.C20.mapChain_calls", "chained snapping mapOnTrack(mapOnTrack(q, ref0), ref1) ...: output k is mapOnTrack(output k-1, ref k) — its dist / edge are those of the projection of the previous output's positions, not the dist / edge that output carries"),
+        (M, "TV.C20.mapOnTrackT_nearest_partial", "the property at full strength through the track form, tracks with any state: reference without kept vertical segment, at least one query -> returns; for every query the output's point lies on segment edge[j], dist[j] = distance to it, minimal over every point of every segment"),
     ]
     partial = ["proj_segment_min_partial / proj_segment_nearest_partial / proj_polyline_min_partial / proj_polyline_nearest_partial: the property is proved at full "
                "strength (point on the carrying segment, index, d = |q - p|, d minimal over every point of every segment, skipped zero-length segments included) "
@@ -255,7 +260,10 @@ class P(Prop):
                 "-c / b raises or not), proj_polyligne on its two sequences (lists / tuples / numpy arrays, range(len(Xp) - 1), IndexError on a shorter Yp, "
                 "extra ordinates ignored, near-zero-length segments skipped, strict < minimum, UnboundLocalError); core/track.py Track.getX() / getY() on 3D "
                 "positions (ENU / Geo / ECEF: only getX, getY are read); algo/mapping.py __projOnTrack (ENUCoords(xproj, yproj, 0), altitudes never read), "
-                "mapOnTrack with its dispatch on the first argument (coordinate / track of queries, dist and edge columns); Float instance, bit patterns")
+                "mapOnTrack with its dispatch on the first argument (coordinate / track of queries, dist and edge columns); the Track branch on track OBJECTS "
+                "(Model/ProjTrack.lean): output = Track(), addObs(Obs(proj[0])) with the default time stamp, createAnalyticalFeature('dist' / 'edge', list) through "
+                "the feature-table model of C01 (Model/Features.lean createC: silent no-op on an existing name, AnalyticalFeatureError on an empty track), the "
+                "track of queries and the reference track with their own features and time stamps, chained calls (mapChain); Float instance, bit patterns")
     rule = ("exhaustive lattice scopes, then random polylines of 2..5 (one in nine: 6..30, one in eighty: 31..120) vertices built from oblique / horizontal / "
             "vertical / zero-length / collinear (forward and folding back) / back-to-an-earlier-vertex steps in every direction. Streams: integer lattice (exact in "
             "double arithmetic), two-decimal coordinates, longitudes / latitudes with 5 decimals around (2.35, 48.85), projected coordinates around "
@@ -265,10 +273,15 @@ class P(Prop):
             "polyline, float / numpy scalar / int for the query, Yp longer or shorter than Xp; positions ENUCoords / GeoCoords / ECEFCoords with altitudes flat, "
             "equal on track and query, only on the track, only on the query, varying, NaN (the projection is planimetric: every clause is checked in the (X, Y) "
             "plane); sequences on ONE track object: project, modify in place (vertex moved, whole track shifted, vertex appended, object replaced), project "
-            "again — each projection checked against the geometry of that moment. Track objects are never recycled within a process (no identity reuse). "
+            "again — each projection checked against the geometry of that moment; mapOnTrack(track, track) on track objects that carry STATE (kind mapf, "
+            "1 random case in 13): the track of queries has analytical features of its own (names among dist, edge, speed, abs_curv, ...: one case in two "
+            "has a feature called dist and / or edge, the names mapOnTrack writes) and time stamps, the reference tracks have features, 0..2 further calls are "
+            "chained (the output track of call k, which carries the dist / edge of call k, is the track of queries of call k + 1, on the same / a shifted / "
+            "another reference), one case in twenty passes the reference track object itself as track of queries, one in a hundred an empty track; every "
+            "call is judged on the queries it was given (read from the track of queries just before the call). Track objects are never recycled within a process (no identity reuse). "
             "non-trivial = the polyline has at least one segment of non-zero length. Outside the property's domain (an error is accepted there): "
             "proj_segment on a zero-length segment, a polyline all of whose vertices coincide (up to the 1e-16 under which proj_polyligne skips a segment), "
-            "a Yp shorter than Xp, and an input whose distances are all outside the double range (a non-finite coordinate, or the exact squared "
+            "a Yp shorter than Xp, a track of queries without observation, and an input whose distances are all outside the double range (a non-finite coordinate, or the exact squared "
             "distance from the query to every non-skipped segment >= 2**1024: proj_polyligne then keeps nothing against its sentinel 1e400 and raises "
             "UnboundLocalError). Sentinel stream (1 case in 41, appended): proj_polyligne / its two-sequence forms with a query coordinate inf / -inf / "
             "nan / +-1e200 / +-1e308 / +-max double, or vertices at +-1e308, kept only when out of range in that exact sense; checked against the "
